@@ -13,7 +13,8 @@ Hypotheses (all are stated, none is an axiom):
  * `wrap_is_noop` shows what happens without `OpsOK` (the real code behaves the same, see the harness).
 FULL: no_past_signature, retained_authority, future_signable, signable_antitone, sign_iff_authority,
 forgery_needs_authority, no_forgery_after_delete, and the round-level forms no_past_round_signature,
-retained_round_authority, future_round_signable (via OneTimeIDForRound).  Nothing partial on the symbolic model.
+retained_round_authority, future_round_signable (via OneTimeIDForRound), and across persistence/restart
+(restart_preserves_forward_security, restart_future_signable, restored_signs_as_memory).  Nothing partial on the symbolic model.
 Out of scope: wiping of freed Go memory; freshness of keys; concurrency.
 -/
 import AlgoVerif.Lemmas.OneTimeSig
@@ -265,5 +266,76 @@ example : sign (run (generateForRounds 10 29 4 (by decide)) (advanceOps 4 (by de
     (idForRound 17 4 (by decide)) 7 = none := by decide
 example : ((sign (run (generateForRounds 10 29 4 (by decide)) (advanceOps 4 (by decide) [13, 18, 17]))
     (idForRound 18 4 (by decide)) 7).map (fun sg => verify .master (idForRound 18 4 (by decide)) 7 sg)) = some true := by
+  decide
+
+/-! ## Across restarts (data/account/participation.go: DeleteOldKeys persists, RestoreParticipation reloads)
+
+History = any interleaving of acknowledged advances (`disk := mem` after the deletion) and restarts (`mem := disk`).
+All three are corollaries of the one-step deletion lemmas through the node invariant `NInv`. -/
+
+/-- what a restarted node would sign with is what the running node signs with -/
+theorem restored_signs_as_memory (start n : Nat) (hsn : start + n < M64) (h : List NOp)
+    (hok : OpsOK (advancesOf h)) (id : Id) (m : Nat) :
+    sign (reload (nrun (nodeInit start n) h).disk) id m = sign (nrun (nodeInit start n) h).mem id m := by
+  have hi := ninv_run _ h (ninv_init start n hsn) hok
+  rw [sign_eqv _ _ (eqv_reload _) id m, sign_eqv _ _ hi.eqv id m]
+
+/-- **C36 across restarts.**  After any history of acknowledged advances and restarts, neither the secrets in memory
+    nor the secrets a restart would load from the part-key DB sign an identifier earlier than ANY acknowledged
+    advance point, and no secret retained in either copy has authority over it. -/
+theorem restart_preserves_forward_security (start n : Nat) (hsn : start + n < M64) (h : List NOp)
+    (hok : OpsOK (advancesOf h)) (op : Op) (hop : op ∈ advancesOf h) (id : Id) (hlt : Id.lt id op.cur) (m : Nat) :
+    sign (nrun (nodeInit start n) h).mem id m = none ∧
+    sign (reload (nrun (nodeInit start n) h).disk) id m = none ∧
+    (∀ k ∈ retained (nrun (nodeInit start n) h).mem, authority k id = false) ∧
+    (∀ k ∈ retained (reload (nrun (nodeInit start n) h).disk), authority k id = false) := by
+  have hi := ninv_run _ h (ninv_init start n hsn) hok
+  have hid := lt_batch_succ id op.cur hlt (hok op hop)
+  have hnc : ¬ covers (nrun (nodeInit start n) h).mem id := fun hc =>
+    (node_covers_sub _ h (ninv_init start n hsn) hok id hc).2 op hop hlt
+  have hmem : sign (nrun (nodeInit start n) h).mem id m = none := by
+    cases hs : sign (nrun (nodeInit start n) h).mem id m with
+    | none => rfl
+    | some sg =>
+      exfalso
+      exact hnc ((sign_isSome_iff _ id m hid).mp (by rw [hs]; rfl))
+  have hret : ∀ k ∈ retained (nrun (nodeInit start n) h).mem, authority k id = false := by
+    intro k hk
+    cases ha : authority k id with
+    | false => rfl
+    | true => exact absurd (retained_covers _ hi.mem k hk id ha) hnc
+  refine ⟨hmem, ?_, hret, ?_⟩
+  · rw [restored_signs_as_memory start n hsn h hok]; exact hmem
+  · rw [retained_eqv _ _ (eqv_reload _), ← retained_eqv _ _ hi.eqv]; exact hret
+
+/-- … and both copies still sign (with a verifying result) every identifier of the key's range that is not earlier
+    than any acknowledged advance point. -/
+theorem restart_future_signable (start n : Nat) (hsn : start + n < M64) (h : List NOp)
+    (hok : OpsOK (advancesOf h)) (id : Id) (hr : start ≤ id.batch ∧ id.batch < start + n)
+    (hfut : ∀ op ∈ advancesOf h, ¬ Id.lt id op.cur ∧ id.offset < op.numKeys) (m : Nat) :
+    ∃ sg, sign (nrun (nodeInit start n) h).mem id m = some sg ∧
+          sign (reload (nrun (nodeInit start n) h).disk) id m = some sg ∧
+          verify .master id m sg = true := by
+  have hid : id.batch + 1 < M64 := by omega
+  have hi := ninv_run _ h (ninv_init start n hsn) hok
+  have hc := node_covers_sup _ h (ninv_init start n hsn) hok id ((covers_generate start n id).mpr hr) hfut
+  have hs := (sign_isSome_iff _ id m hid).mpr hc
+  cases hsg : sign (nrun (nodeInit start n) h).mem id m with
+  | none => rw [hsg] at hs; simp at hs
+  | some sg =>
+    exact ⟨sg, rfl, by rw [restored_signs_as_memory start n hsn h hok, hsg],
+      sign_verifies _ id m sg hi.mem hid hsg⟩
+
+-- instance: keys for batches 1..3 (dilution 3); advance to (1,2), restart, advance to (2,1), advance back to (1,0), restart
+def exHist : List NOp := [.advance ⟨1, 2⟩ 3, .restart, .advance ⟨2, 1⟩ 3, .advance ⟨1, 0⟩ 3, .restart]
+example : OpsOK (advancesOf exHist) := by
+  intro op h; simp only [exHist, advancesOf, List.mem_cons, List.not_mem_nil, or_false] at h
+  rcases h with rfl | rfl | rfl <;> decide
+example : sign (reload (nrun (nodeInit 1 3) exHist).disk) ⟨2, 0⟩ 7 = none := by decide
+example : (sign (reload (nrun (nodeInit 1 3) exHist).disk) ⟨2, 1⟩ 7).map (fun sg => verify .master ⟨2, 1⟩ 7 sg)
+    = some true := by decide
+example : retained (nrun (nodeInit 1 3) exHist).mem = [.B 3, .O 2 1, .O 2 2] := by decide
+-- the reload really changes the nil-ness flag (an exhausted key), which is why `Eqv` and not `=` is the invariant
+example : (nrun (nodeInit 1 1) [.advance ⟨2, 0⟩ 3, .restart]).mem ≠ (nrun (nodeInit 1 1) [.advance ⟨2, 0⟩ 3, .restart]).disk := by
   decide
 end Props.C36
